@@ -1,7 +1,38 @@
-"""C10 — runs the available codec-block parts (XML side: harness/xmlblock.py, dict-document side: harness/hierblock.py).
+"""C10 — hostile or malformed requests end in a client fault, never a crash.
 
-Each block contributes T1 facts (`t1`), Props/C10_<block>.lean theorems (built by ctx.prove) and T2/T3 (`part_c10`)."""
+Layers
+  T1  `measure_facts` -> SpyneModel/Generated/Facts10.lean: (a) every try/except of the request funnel
+      (spyne/server/_base.py, spyne/application.py, the create_in_document of every input protocol,
+      spyne/server/wsgi.py handle_rpc) extracted by `ast` from the current source: caught classes in handler
+      order and what the handler turns the exception into; (b) the exception hierarchies of the third-party
+      parsers (introspection of lxml.etree, json, yaml, msgpack); (c) the fault-class -> HTTP status tables
+      (probe of fault_to_http_response_code); (d) the transport decision table of WsgiApplication (request
+      method x CONTENT_TYPE class x CONTENT_LENGTH class per protocol family), every row measured by
+      replaying its witness environ on the real callable; (e) leaf-parser witnesses of the C08-only leaves.
+  Proof  lean/Props/C10.lean (funnel model lean/SpyneModel/Hostile.lean, lemmas lean/Proofs/Hostile.lean) plus the two
+      codec parts Props/C10_xml.lean, Props/C10_hier.lean.
+  T2  model funnel vs real pipeline on the outcome class (ok / fault family / status class / called?) of every case
+      of the failing-input search: the stage-level observations (third-party parser result, isolated codec stage) are
+      fed to `funnel` and the composed prediction is compared with the end-to-end run.
+  T3  failing-input search, systematic about leaves and transport (see `part_leaves`, `part_transport`,
+      `part_bytes`), then the two codec blocks' own `part_c10`.
+"""
+import ast
+import datetime as pydt
+import hashlib
+import io
+import json
+import os
+import sys
+import traceback
+from collections import OrderedDict
+from urllib.parse import quote
+
 from . import core
+
+TNS = 'urn:c10'
+NS_SOAP11 = 'http://schemas.xmlsoap.org/soap/envelope/'
+NS_SOAP12 = 'http://www.w3.org/2003/05/soap-envelope'
 
 
 def _blocks():
@@ -19,23 +50,1615 @@ def _blocks():
     return mods
 
 
+# ====================================================================================== literal dictionaries
+def _offsets():
+    out = []
+    for sg in '+-':
+        for hm in ('00:00', '00:01', '00:59', '00:60', '13:59', '14:00', '14:01', '23:59', '23:60', '24:00', '24:01', '24:30',
+                   '24:59', '25:00', '29:59', '99:59', '99:99', '9:00', '123:00'):
+            out.append(sg + hm)
+    return out
+
+
+GENERIC = ['', ' ', '\t', '\x00', '\ud800', 'é', '９', '١٢', '-', 'NaN', 'INF', 'null', 'None', '<', '&amp;', ']]>',
+           'a' * 70000, '9' * 1100, '\U0001F600', '1\x00', ' 1 ', '1e3', '0x10']
+
+
+def nasty_literals():
+    """family -> ordered list of nasty literals (c08's dictionaries, extended)"""
+    from . import c08, c08x
+    offs = _offsets()
+    d = OrderedDict()
+    d['int'] = c08.NASTY_INT + ['５', '١٢', '1\x00', '9' * 4300, '9' * 4301, '1' * 1023, '٣', 'NaN', 'INF', '-INF', 'Infinity',
+                               '1E3', '1e-3', '1.5e3', '+', '１２３', '²', '1 ', '​1']
+    d['bool'] = c08.NASTY_BOOL + ['tru\x00e', 'ｔｒｕｅ', 'İ', 'TRUEİ', 'İ']
+    d['dt'] = (c08.NASTY_DT + ['2020-01-01T00:00:00' + o for o in offs] +
+               ['2020-01-01T24:00:00', '2020-01-01T24:00:00Z', '2020-01-01T24:00:01', '2020-13-01T00:00:00Z', '2020-12-32T00:00:00',
+                '2020-01-01T00:00:00.' + '9' * 400, '2020-01-01T00:00:00.' + '9' * 5000, '99999999999-01-01T00:00:00',
+                '2020-01-01T00:00:00\x00', '２０２０-01-01T00:00:00', '2020-01-01T00:00:00+٠٥:٣٠', '2020-01-01T00:00:00+05:٣٠',
+                '0001-01-01T00:00:00+14:00', '9999-12-31T23:59:59-14:00', '0001-01-01T00:00:00+00:01', '9999-12-31T23:59:59.9999999',
+                '-2020-01-01T00:00:00', '2020-01-01T00:00:00.1e5', '2020-01-01t00:00:00', '2020-01-01T00:00:00+', '2020-01-01T00:00:00+2',
+                '2020-01-01T00:00:00+24', '2020-01-01T00:00:00 +24:00', '2020-01-01T99:99:99', '2020-01-01T-1:00:00'])
+    d['date'] = (c08.NASTY_DATE + ['2020-01-01' + o for o in offs] +
+                 ['2020-13-01Z', '2020-02-30-24:00', '99999999999-01-01', '2020-01-01\x00', '２０２０-01-01', '2020-01-٠١', '0000-00-00',
+                  '2020-01-01+', '-2020-01-01', '2020-W01-1', '2020-001', '9' * 5000 + '-01-01', '2020-' + '1' * 5000 + '-01'])
+    d['time'] = (c08.NASTY_TIME + ['12:00:00' + o for o in offs] +
+                 ['24:00:00.000', '24:00:01', '23:59:60', '12:00:00.' + '9' * 400, '12:00:00.' + '9' * 5000, '12:00:00\x00', '１２:00:00',
+                  '12:٠٠:00', '-1:00:00', '99:99:99', '12:00:00.1e5', '9' * 5000 + ':00:00'])
+    d['dur'] = c08.NASTY_DUR + ['P' + '9' * 5000 + 'D', 'P' + '9' * 20 + 'D', 'PT' + '9' * 30 + 'S', 'PT' + '9' * 5000 + 'S',
+                               'PT1.' + '9' * 5000 + 'S', 'P' + '9' * 4300 + 'Y', 'PT1e5S', 'P1\x00D', 'P１D', 'P٣D', 'PT٣S', 'PT1.٣S', 'P1Y' * 2,
+                               'PT' + '9' * 19 + 'H', 'PT' + '9' * 19 + 'M', 'P999999999Y', 'P99999999999999M', '--P1D', 'PT-1S', 'PT1.-5S',
+                               'PTINFS', 'PTNaNS', 'P1.5Y']
+    d['hex'] = ['616', 'zz', '6 1', '0x61', '61\n', ' 61', '61 ', 'é', '６１', 'g1', '6', '61626', 'a' * 69999, 'a' * 70000, '\x00\x00',
+                '61\x00', '--', '=', 'YWJj', '61-62', 'AB', 'ab', 'Ab', '\ud800a', '6¹']
+    d['base64'] = ['YWJ', 'YWJj=', '====', '=', 'Y', 'YW Jj', 'YW\nJj', 'é', 'YWJjé', 'a' * 69999, 'a' * 70000, '\x00', 'YWJj\x00', 'YW-_', 'YW+/',
+                   'Y===', 'YQ=', 'YQ', 'YQ==YQ==', '!!!!', 'YWJj' * 3 + 'Y', '\ud800', 'ＹＷＪｊ', '=YWJj', 'YW=Jj', '616']
+    d['urlsafe'] = d['base64'] + ['YW-_YQ', '-___', '_', '-', 'YW+/YQ==', 'YW-_=', 'é-_']
+    d['dec'] = c08x.NASTY_DEC + ['sNaN', '-sNaN', 'NaN', '-Infinity', 'Infinity', '１.５', '٣.٣', '1\x00', '1e' + '9' * 30, '1' * 4301,
+                                 '0.' + '0' * 4300 + '1', 'nan' + '1' * 30, '1E+٣']
+    d['dbl'] = c08x.NASTY_DBL + ['１.５', '٣.٣', '1\x00', '1e' + '9' * 30, '1' * 400, '1' * 5000, '0.' + '0' * 4300 + '1', 'nan(0x1)', 'infinity1',
+                                 '1e+٣', '0x1.8p3', '1_000.5', '+-inf']
+    d['uuid'] = c08x.NASTY_UUID + ['１2345678-1234-5678-1234-567812345678', '12345678-1234-5678-1234-56781234567\x00', '٣' * 32, 'é' * 32,
+                                   '0' * 31, '0' * 33, '0' * 4301, 'urn:uuid:', '12345678-1234-5678-1234-5678123456 8', '-' * 31 + '1',
+                                   '+1' + '0' * 30, '-1' + '0' * 30]
+    d['str'] = ['abcd', 'ABC', 'a b', 'é', 'a' * 70000, '\x00', '\ud800', '\udfff\ud800', 'a\x0bb', '￾', '￿', '\x85', ' ']
+    d['enum'] = ['nope', 'RED', ' red', 'red ', '__class__', '__doc__', '__module__', 'mro', '__values__', 'Attributes', 'red\x00',
+                 'ｒｅｄ', '__init__', 'get_type_name', '_type_info']
+    return d
+
+
+def native_nasty(proto):
+    """values of the wrong kind that a dict-document transport can carry at a leaf position"""
+    pool = [None, True, False, 0, 1, -1, 5, 255, 256, 2 ** 31, 2 ** 63, 2 ** 64 - 1, 0.0, 1.0, 1.5, -0.5, 1e300, 5e-324,
+            [], [1], ['a'], [None], [[1]], [[]], {}, {'k': 1}, {'a': {'b': 1}}, {'x': None}, [{}]]
+    if proto in ('json', 'yaml'):
+        pool += [2 ** 64, 2 ** 70, -2 ** 70, 10 ** 400, float('inf'), float('-inf'), float('nan')]
+    if proto != 'json':
+        pool += [b'', b'ab', b'\xff\xfe', b'12', b'YWJj', b'2020-01-02', b'2020-01-02T03:04:05', b'12:00:00', b'P1D', b'6162',
+                 'h\xe9'.encode('utf8'), b'\x00', b'true', b'1.5', b'12345678-1234-5678-1234-567812345678', b'\xe9' * 32,
+                 b'\xff' * 16, b'red']
+    if proto == 'yaml':
+        pool += [pydt.date(2020, 1, 2), pydt.datetime(2020, 1, 2, 3, 4, 5), {1: 2}, {None: 1}]
+    return pool
+
+
+# ====================================================================================== the leaf universe
+def _safe(s):
+    return ''.join(c if c.isalnum() else '_' for c in s)
+
+
+def leaf_universe():
+    """kind id -> dict(cls, fam, valid (text), native (value for dict documents))"""
+    import pytz
+    from spyne.model import primitive as P
+    from spyne.model.binary import ByteArray
+    from spyne.model.enum import Enum
+    from . import c08
+    _, ints, _ = c08.impl_env()
+    K = OrderedDict()
+
+    def add(kid, cls, fam, valid, native=None):
+        K[kid] = {'id': kid, 'cls': cls, 'fam': fam, 'valid': valid, 'native': valid if native is None else native}
+    for k, cls in ints.items():
+        add('int_' + k, cls, 'int', '5', 5)
+    add('int_ge0le9', P.Integer(ge=0, le=9), 'int', '5', 5)
+    add('int_u8gt1', P.UnsignedInteger8(gt=1), 'int', '5', 5)
+    add('bool', P.Boolean, 'bool', 'true', True)
+    add('str', P.Unicode, 'str', 'abc')
+    add('str_max3', P.Unicode(max_len=3), 'str', 'abc')
+    add('str_pat', P.Unicode(pattern='[a-z]+'), 'str', 'abc')
+    add('enum', Enum('red', 'green', type_name='Colour10'), 'enum', 'red')
+    add('date', P.Date, 'date', '2020-01-02')
+    add('time', P.Time, 'time', '12:34:56')
+    add('dt', P.DateTime, 'dt', '2020-01-02T03:04:05')
+    add('dt_astz', P.DateTime(as_timezone=pytz.FixedOffset(330)), 'dt', '2020-01-02T03:04:05+00:00')
+    add('dt_astzutc', P.DateTime(as_timezone=pytz.utc), 'dt', '2020-01-02T03:04:05+00:00')
+    add('dt_notz', P.DateTime(timezone=False), 'dt', '2020-01-02T03:04:05')
+    add('dt_ge', P.DateTime(ge=pydt.datetime(2000, 1, 1, tzinfo=pytz.utc)), 'dt', '2020-01-02T03:04:05+00:00')
+    add('dur', P.Duration, 'dur', 'P1DT2S')
+    add('hex', ByteArray(encoding='hex'), 'hex', '6162')
+    add('base64', ByteArray(encoding='base64'), 'base64', 'YWJj')
+    add('urlsafe', ByteArray(encoding='urlsafe_base64'), 'urlsafe', 'YWJj')
+    add('dec', P.Decimal, 'dec', '1.5')
+    add('dec_gt0', P.Decimal(gt=0), 'dec', '1.5')
+    add('dec_digits', P.Decimal(total_digits=5, fraction_digits=2), 'dec', '1.5')
+    add('dbl', P.Double, 'dbl', '1.5', 1.5)
+    add('dbl_ge0', P.Double(ge=0), 'dbl', '1.5', 1.5)
+    add('uuid', P.Uuid, 'uuid', '12345678-1234-5678-1234-567812345678')
+    return K
+
+
+POSITIONS = ('top', 'nested', 'array', 'repeated')
+XML_PROTOS = ('xml', 'soap11', 'soap12')
+DICT_PROTOS = ('json', 'yaml', 'msgpack', 'msgpackrpc')
+
+
+def all_configs():
+    cfgs = [(p, v) for p in XML_PROTOS for v in (None, 'soft', 'lxml')]
+    cfgs += [(p, v) for p in DICT_PROTOS for v in (None, 'soft')]
+    cfgs += [('http', v) for v in (None, 'soft')]
+    return cfgs
+
+
+def family(proto):
+    return {'xml': 'xml', 'soap11': 'soap', 'soap12': 'soap', 'json': 'json', 'yaml': 'yaml', 'msgpack': 'msgpack',
+            'msgpackrpc': 'msgpack', 'http': 'http'}[proto]
+
+
+class World(object):
+    """the leaf service under every input protocol x validator, through ServerBase and WsgiApplication"""
+
+    def __init__(self, kinds):
+        from spyne import rpc, ServiceBase
+        from spyne.model.complex import ComplexModel, Array
+        from spyne.model import primitive as P
+        self.K = kinds
+        self.calls = []
+        self.servers = {}
+        self.member = {}
+        self.member_ready = False
+        env = {'_w': self}
+        methods = {}
+        for kid, k in kinds.items():
+            cls = k['cls']
+            obj = type(ComplexModel)('O_' + kid, (ComplexModel,), {'__namespace__': TNS, '_type_info': [('x', cls)]})
+            arr = Array(cls)
+            rep = cls.customize(max_occurs='unbounded')
+            name = 'f_' + kid
+            exec('def %s(ctx, a, o, arr, rep):\n    _w.calls.append((%r, a, o, arr, rep))\n    return "ok"\n' % (name, name), env)
+            methods[name] = rpc(cls, obj, arr, rep, _returns=P.Unicode)(env[name])
+        # the plain method of the transport / byte-level parts
+        exec('def echo(ctx, s, n):\n    _w.calls.append(("echo", s, n))\n    return s\n', env)
+        methods['echo'] = rpc(P.Unicode, P.Integer, _returns=P.Unicode)(env['echo'])
+        self.service = type('LeafSvc', (ServiceBase,), methods)
+
+    # ------------------------------------------------------------------ servers
+    def server(self, proto, validator):
+        key = (proto, validator)
+        s = self.servers.get(key)
+        if s is None:
+            from spyne import Application
+            from spyne.server import ServerBase
+            from spyne.server.wsgi import WsgiApplication
+            inp, outp = self._protocols(proto, validator)
+            app = Application([self.service], TNS, name='C10App', in_protocol=inp, out_protocol=outp)
+            s = {'app': app, 'base': ServerBase(app) if proto != 'http' else None, 'wsgi': WsgiApplication(app),
+                 'proto': proto, 'validator': validator}
+            self.servers[key] = s
+            if not self.member_ready:
+                # the element name / namespace of array items is settled when the interface is built
+                for kid in self.K:
+                    d = app.interface.service_method_map['{%s}f_%s' % (TNS, kid)][0]
+                    arr = d.in_message._type_info['arr']
+                    self.member[kid] = '{%s}%s' % (arr.get_namespace(), list(arr._type_info.keys())[0])
+                self.member_ready = True
+        return s
+
+    def _protocols(self, proto, validator):
+        if proto in XML_PROTOS:
+            from .xmlblock import make_protocol
+            return make_protocol(proto, validator), make_protocol(proto, None)
+        if proto == 'http':
+            from spyne.protocol.http import HttpRpc
+            from spyne.protocol.json import JsonDocument
+            return HttpRpc(validator=validator), JsonDocument()
+        from .hierblock import proto_class
+        pc = proto_class(proto)
+        return pc(validator=validator), pc()
+
+    # ------------------------------------------------------------------ request documents
+    def values(self, kid, pos, lit, native=False):
+        """the four argument values of f_<kid>: `lit` at `pos`, the valid literal elsewhere"""
+        v = self.K[kid]['native' if native else 'valid']
+        vals = {'top': v, 'nested': v, 'array': [v], 'repeated': [v, v]}
+        if pos == 'top':
+            vals['top'] = lit
+        elif pos == 'nested':
+            vals['nested'] = lit
+        elif pos == 'array':
+            vals['array'] = [v, lit]
+        elif pos == 'repeated':
+            vals['repeated'] = [lit, v]
+        return vals
+
+    def xml_request(self, proto, kid, pos, lit):
+        """bytes of the request document, or None when XML cannot carry the literal"""
+        from lxml import etree
+        self.server(proto, None)
+        vals = self.values(kid, pos, lit)
+        q = lambda n: '{%s}%s' % (TNS, n)
+        try:
+            root = etree.Element(q('f_' + kid), nsmap={None: TNS})
+            etree.SubElement(root, q('a')).text = vals['top']
+            etree.SubElement(etree.SubElement(root, q('o')), q('x')).text = vals['nested']
+            arr = etree.SubElement(root, q('arr'))
+            for v in vals['array']:
+                etree.SubElement(arr, self.member[kid]).text = v
+            for v in vals['repeated']:
+                etree.SubElement(root, q('rep')).text = v
+        except ValueError:
+            return None
+        return etree.tostring(soap_wrap(proto, root), encoding='utf-8', xml_declaration=True)
+
+    def dict_request(self, proto, kid, pos, lit):
+        from .hierblock import dump
+        vals = self.values(kid, pos, lit, native=True)
+        body = {'a': vals['top'], 'o': {'x': vals['nested']}, 'arr': vals['array'], 'rep': vals['repeated']}
+        name = 'f_' + kid
+        doc = [0, 1, name, body] if proto == 'msgpackrpc' else {name: body}
+        try:
+            return dump('msgpack' if proto == 'msgpackrpc' else proto, doc)
+        except Exception:
+            return None
+
+    def echo_request(self, proto, s='hi', n=5):
+        """a valid request of the plain method `echo(s, n)`"""
+        if proto in XML_PROTOS:
+            from lxml import etree
+            q = lambda x: '{%s}%s' % (TNS, x)
+            root = etree.Element(q('echo'), nsmap={None: TNS})
+            etree.SubElement(root, q('s')).text = s
+            etree.SubElement(root, q('n')).text = str(n)
+            return etree.tostring(soap_wrap(proto, root), encoding='utf-8', xml_declaration=True)
+        from .hierblock import dump
+        body = {'s': s, 'n': n}
+        doc = [0, 1, 'echo', body] if proto == 'msgpackrpc' else {'echo': body}
+        return dump('msgpack' if proto == 'msgpackrpc' else proto, doc)
+
+    def http_query(self, kid, pos, lit):
+        vals = self.values(kid, pos, lit)
+        try:
+            pairs = [('a', vals['top']), ('o.x', vals['nested'])] + [('arr', v) for v in vals['array']] + \
+                    [('rep', v) for v in vals['repeated']]
+            return '&'.join('%s=%s' % (k, quote(v, safe='')) for k, v in pairs)
+        except (UnicodeEncodeError, TypeError):
+            return None
+
+
+def soap_wrap(proto, root):
+    from lxml import etree
+    if proto == 'xml':
+        return root
+    ns = NS_SOAP11 if proto == 'soap11' else NS_SOAP12
+    env = etree.Element('{%s}Envelope' % ns, nsmap={'senv': ns})
+    etree.SubElement(env, '{%s}Body' % ns).append(root)
+    return env
+
+
+CONTENT_TYPES = {'xml': 'text/xml; charset=utf-8', 'soap11': 'text/xml; charset=utf-8',
+                 'soap12': 'application/soap+xml; charset=utf-8', 'json': 'application/json', 'yaml': 'text/yaml',
+                 'msgpack': 'application/x-msgpack', 'msgpackrpc': 'application/x-msgpack', 'http': None}
+
+
+# ====================================================================================== running the real code
+def spyne_frame(e):
+    """innermost spyne frame of an exception as `file:function` (line numbers move under harmless edits)"""
+    tb = traceback.extract_tb(e.__traceback__)
+    for fr in reversed(tb):
+        if '/spyne/' in fr.filename:
+            return '%s:%s' % (fr.filename.split('/spyne/')[-1], fr.name)
+    return '?'
+
+
+def is_client(code):
+    code = str(code or '')
+    return code == 'Client' or code.startswith('Client.')
+
+
+class Res(object):
+    """canonical outcome of one request through one transport"""
+    __slots__ = ('kind', 'code', 'exc', 'frame', 'stage', 'calls', 'status', 'wire', 'out', 'in_stage')
+
+    def __init__(self):
+        self.kind = self.code = self.exc = self.frame = self.stage = self.status = self.wire = self.out = self.in_stage = None
+        self.calls = 0
+
+    def cls(self):
+        """outcome class compared with the model"""
+        if self.kind == 'escape':
+            return {'escape': True}
+        fam = 'ok' if self.kind == 'ok' else ('client' if is_client(self.code) else 'server')
+        st = None if self.status is None else self.status // 100
+        return {'resp': fam, 'called': self.calls, 'status': st}
+
+
+def wire_code(proto, out):
+    """fault code of a response document in the output protocol's own spelling (None: not a fault document)"""
+    if proto in XML_PROTOS:
+        from .xmlblock import response_fault_code
+        return response_fault_code(proto, out)
+    from .hierblock import fault_code_of
+    p = 'json' if proto == 'http' else proto
+    return fault_code_of({'proto': p}, out)
+
+
+def run_base(W, s, data):
+    """generate_contexts -> get_in_object -> get_out_object -> get_out_string on ServerBase"""
+    from spyne import MethodContext
+    server = s['base']
+    r = Res()
+    del W.calls[:]
+    stage = 'generate_contexts'
+    try:
+        ictx = MethodContext(server, MethodContext.SERVER)
+        ictx.in_string = [data]
+        ctx = server.generate_contexts(ictx)[0]
+        if ctx.in_error is None:
+            stage = 'get_in_object'
+            server.get_in_object(ctx)
+        else:
+            r.in_stage = 'generate_contexts'
+        if ctx.in_error is None:
+            stage = 'get_out_object'
+            server.get_out_object(ctx)
+        elif r.in_stage is None:
+            r.in_stage = 'get_in_object'
+        if ctx.in_error is not None and ctx.out_error is None:
+            ctx.out_error = ctx.in_error
+        stage = 'get_out_string'
+        server.get_out_string(ctx)
+        r.out = b''.join(ctx.out_string)
+    except Exception as e:
+        r.kind, r.exc, r.frame, r.stage, r.calls = 'escape', type(e).__name__, spyne_frame(e), stage, len(W.calls)
+        return r
+    r.calls = len(W.calls)
+    err = ctx.out_error if ctx.out_error is not None else ctx.in_error
+    if err is None:
+        r.kind = 'ok'
+    else:
+        r.kind, r.code = 'fault', str(getattr(err, 'faultcode', ''))
+        r.wire = wire_code(s['proto'], r.out)
+    return r
+
+
+class Input(object):
+    """wsgi.input with a behaviour: 'file' | 'short' (1 byte per read) | 'raise' | 'raise-late' | 'none'"""
+
+    def __init__(self, data, mode='file'):
+        self.b, self.mode, self.n = io.BytesIO(data), mode, 0
+
+    def read(self, n=-1):
+        self.n += 1
+        if self.mode == 'raise' or (self.mode == 'raise-late' and self.n > 1):
+            raise IOError('connection reset by peer')
+        if self.mode == 'short':
+            return self.b.read(min(n, 1) if n and n > 0 else 1)
+        if self.mode == 'none':
+            return None
+        return self.b.read(n)
+
+
+def base_environ(proto, data, path='/', qs='', method='POST'):
+    env = {'REQUEST_METHOD': method, 'PATH_INFO': path, 'SCRIPT_NAME': '', 'QUERY_STRING': qs, 'SERVER_NAME': 'localhost',
+           'SERVER_PORT': '80', 'SERVER_PROTOCOL': 'HTTP/1.1', 'wsgi.input': Input(data), 'wsgi.url_scheme': 'http',
+           'wsgi.errors': io.StringIO(), 'wsgi.version': (1, 0), 'wsgi.multithread': False, 'wsgi.multiprocess': False,
+           'wsgi.run_once': False, 'CONTENT_LENGTH': str(len(data))}
+    if CONTENT_TYPES[proto] is not None:
+        env['CONTENT_TYPE'] = CONTENT_TYPES[proto]
+    return env
+
+
+def run_wsgi(W, s, env):
+    r = Res()
+    del W.calls[:]
+    seen = {}
+
+    def start_response(status, headers, exc_info=None):
+        seen['status'], seen['headers'] = status, headers
+        return lambda b: None
+    try:
+        it = s['wsgi'](env, start_response)
+        try:
+            r.out = b''.join(it)
+        finally:
+            close = getattr(it, 'close', None)
+            if close is not None:
+                close()
+    except Exception as e:
+        r.kind, r.exc, r.frame, r.stage, r.calls = 'escape', type(e).__name__, spyne_frame(e), 'wsgi', len(W.calls)
+        return r
+    r.calls = len(W.calls)
+    try:
+        r.status = int(str(seen.get('status', '')).split(' ')[0])
+    except ValueError:
+        r.status = 0
+    if r.status == 200:
+        r.kind = 'ok'
+    else:
+        r.kind = 'fault'
+        r.wire = wire_code(s['proto'], r.out)
+        r.code = r.wire if isinstance(r.wire, str) and r.wire not in ('unparseable', '#unparsable') else None
+    return r
+
+
+def diagnose(W, s, data=None, env=None):
+    """drive the input protocol's stages directly (outside the server's handlers): the first exception other
+    than Fault, as (class name, innermost spyne frame, stage)"""
+    from spyne import MethodContext
+    from spyne.model.fault import Fault
+    app = s['app']
+    p = app.in_protocol
+    calls = list(W.calls)
+    stage = 'create_in_document'
+    try:
+        if env is not None:
+            from spyne.server.wsgi import WsgiMethodContext
+            w = s['wsgi']
+            ctx = WsgiMethodContext(w, env, app.out_protocol.mime_type)
+            stage = 'reconstruct_wsgi_request'
+            ctx.in_string, charset = w._WsgiApplication__reconstruct_wsgi_request(env)
+            stage = 'create_in_document'
+            p.create_in_document(ctx, charset)
+        else:
+            ctx = MethodContext(s['base'], MethodContext.SERVER)
+            ctx.in_string = [data]
+            p.create_in_document(ctx, None)
+        stage = 'decompose_incoming_envelope'
+        p.decompose_incoming_envelope(ctx, p.REQUEST)
+        stage = 'generate_method_contexts'
+        ctx = p.generate_method_contexts(ctx)[0]
+        stage = 'deserialize'
+        p.deserialize(ctx, message=p.REQUEST)
+    except Fault as e:
+        return None
+    except Exception as e:
+        return type(e).__name__, spyne_frame(e), stage
+    finally:
+        W.calls[:] = calls
+    return None
+
+
+# ====================================================================================== the oracle
+class Judge(object):
+    """evaluates the property on one run; findings are de-duplicated by
+    (what, protocol family, exception class or 'server-fault', innermost spyne frame / leaf kind)"""
+
+    def __init__(self, ctx, W):
+        self.ctx, self.W = ctx, W
+        self.sites = {}
+
+    def _finding(self, fid, what, replay):
+        self.sites[fid] = self.sites.get(fid, 0) + 1
+        self.ctx.hit('t3-fail:' + fid)
+        self.ctx.finding(fid, what, replay)
+
+    def check(self, s, r, transport, replay, leaf=None, data=None, env=None, io_error=False):
+        """`r`: Res of a request that is malformed / hostile (or valid: then every clause holds trivially).
+        Returns True when the property holds."""
+        proto = s['proto']
+        fam = family(proto)
+        site = leaf or 'request'
+        rp = dict(replay, transport=transport, proto=proto, validator=s['validator'])
+        if r.kind == 'escape':
+            self._finding('c10:escape:%s:%s:%s:%s' % (transport, fam, r.exc, r.frame),
+                          '%s escapes %s (innermost spyne frame %s) on a hostile %s request%s' % (
+                              r.exc, r.stage if transport == 'base' else 'the WSGI callable', r.frame, proto,
+                              ' [%s]' % leaf if leaf else ''), dict(rp, observed={'escape': r.exc, 'frame': r.frame, 'stage': r.stage}))
+            return False
+        ok = True
+        if r.kind == 'fault':
+            code = r.code
+            client = is_client(code)
+            if not client and not io_error:
+                d = diagnose(self.W, s, data=data, env=env)
+                exc, frame = (d[0], d[1]) if d else ('server-fault', site)
+                self._finding('c10:server-fault:%s:%s:%s' % (fam, exc, frame if d else site),
+                              'a malformed %s request%s is answered with fault code %r%s instead of a Client fault%s' % (
+                                  proto, ' [%s]' % leaf if leaf else '', code,
+                                  ' / HTTP %s' % r.status if r.status else '',
+                                  ': %s raised in %s during %s' % (d[0], d[1], d[2]) if d else ''),
+                              dict(rp, observed={'fault': code, 'status': r.status, 'underlying': d}))
+                ok = False
+            if r.calls:
+                self._finding('c10:called-and-fault:%s:%s' % (transport, fam),
+                              'the user function ran although the request is answered with a fault', dict(rp, observed={'fault': code, 'calls': r.calls}))
+                ok = False
+            if client or io_error:
+                wire = r.wire
+                if not (isinstance(wire, str) and (is_client(wire) or (io_error and wire.startswith('Server')))):
+                    self._finding('c10:fault-document:%s:%s' % (fam, str(wire)[:24]),
+                                  'the response to a malformed %s request is not a well-formed Client fault document of the output protocol '
+                                  '(code read back: %r)' % (proto, wire), dict(rp, response=(r.out or b'')[:600].decode('utf-8', 'replace')))
+                    ok = False
+            if transport == 'wsgi' and client and fam != 'soap' and not (400 <= (r.status or 0) < 500):
+                self._finding('c10:status:%s:%s' % (fam, r.status), 'a Client fault over HTTP (%s) is sent with status %s' % (proto, r.status),
+                              dict(rp, observed={'fault': code, 'status': r.status}))
+                ok = False
+        elif r.calls != 1:
+            self._finding('c10:ok-without-call:%s:%s:%d' % (transport, fam, r.calls),
+                          'a request answered normally ran the user function %d times' % r.calls, dict(rp, observed={'calls': r.calls}))
+            ok = False
+        return ok
+
+    def sanity(self, s, r, transport, replay):
+        """a valid request is answered normally"""
+        if r.kind != 'ok' or r.calls != 1:
+            fam = family(s['proto'])
+            self._finding('c10:valid-rejected:%s:%s:%s' % (transport, fam, replay.get('kid', '')),
+                          'a valid %s request is not answered normally: %s %s %s calls=%d' % (s['proto'], r.kind, r.code or r.exc, r.status or '', r.calls),
+                          dict(replay, transport=transport, proto=s['proto'], validator=s['validator']))
+            return False
+        return True
+
+
+# ====================================================================================== T1: facts
+PARSER_CALLS = {'fromstring', 'XMLID', 'loads', 'load', 'unpackb'}
+
+
+def _spyne_ast(rel):
+    path = os.path.join(core.REPO, 'spyne', rel)
+    return ast.parse(open(path).read(), filename=path)
+
+
+def _find_func(tree, qualname):
+    parts = qualname.split('.')
+    node = tree
+    for p in parts:
+        nxt = None
+        for n in ast.iter_child_nodes(node):
+            if isinstance(n, (ast.FunctionDef, ast.ClassDef)) and n.name == p:
+                nxt = n
+        if nxt is None:
+            raise core.Infra('T1: %s not found in the source' % qualname)
+        node = nxt
+    return node
+
+
+def _call_name(call):
+    f = call.func
+    return f.attr if isinstance(f, ast.Attribute) else f.id if isinstance(f, ast.Name) else None
+
+
+def try_chain(func, pred):
+    """chain of `try` statements (innermost first) whose *body* contains the first call satisfying `pred`;
+    None when there is no such call outside exception handlers"""
+    found = []
+
+    def walk(node, stack):
+        if found:
+            return
+        if isinstance(node, ast.Try):
+            for n in node.body:
+                walk(n, [node] + stack)
+            for n in node.orelse + node.finalbody:
+                walk(n, stack)
+            return          # handlers are not searched: a call made there is the handler's business
+        if isinstance(node, ast.Call) and pred(node):
+            found.append(list(stack))
+            return
+        for n in ast.iter_child_nodes(node):
+            walk(n, stack)
+    for n in func.body:
+        walk(n, [])
+    return found[0] if found else None
+
+
+def _resolve(expr, module):
+    """class objects named by the type expression of an except clause, in the namespace of its module"""
+    if expr is None:
+        return [BaseException]
+    v = eval(compile(ast.Expression(expr), '<except>', 'eval'), vars(module))
+    return list(v) if isinstance(v, tuple) else [v]
+
+
+def classify_handler(h, module):
+    """(class names, action) of one except clause"""
+    from spyne.model.fault import Fault
+    classes = [c.__name__ for c in _resolve(h.type, module)]
+    action = None
+    for node in ast.walk(ast.Module(body=h.body, type_ignores=[])):
+        fault_call = None
+        if isinstance(node, ast.Raise) and isinstance(node.exc, ast.Call):
+            fault_call = node.exc
+        elif isinstance(node, ast.Assign) and any(isinstance(t, ast.Attribute) and t.attr in ('in_error', 'out_error')
+                                                   for t in _flat_targets(node)):
+            if isinstance(node.value, ast.Call):
+                fault_call = node.value
+            elif isinstance(node.value, ast.Name) and node.value.id == h.name and action is None:
+                action = ('keep',)
+        if fault_call is not None and action is None:
+            try:
+                cls = _resolve(fault_call.func, module)[0]
+            except Exception:
+                cls = None
+            if isinstance(cls, type) and issubclass(cls, Fault):
+                code = getattr(cls, 'CODE', None)
+                if code is None and fault_call.args and isinstance(fault_call.args[0], ast.Constant):
+                    code = fault_call.args[0].value
+                if isinstance(code, str):
+                    action = ('wrap', code)
+    if action is None:
+        calls = [_call_name(n) for n in ast.walk(ast.Module(body=h.body, type_ignores=[])) if isinstance(n, ast.Call)]
+        action = ('retry',) if any(c in PARSER_CALLS for c in calls) else ('other',)
+    return classes, action
+
+
+def _flat_targets(assign):
+    out = []
+    for t in assign.targets:
+        out += list(t.elts) if isinstance(t, (ast.Tuple, ast.List)) else [t]
+    return out
+
+
+def chain_facts(rel, qualname, pred, modname):
+    import importlib
+    module = importlib.import_module(modname)
+    func = _find_func(_spyne_ast(rel), qualname)
+    ch = try_chain(func, pred)
+    if ch is None:
+        return None
+    return [[classify_handler(h, module) for h in t.handlers] for t in ch]
+
+
+def is_call(*names):
+    return lambda c: _call_name(c) in names
+
+
+def is_decode_call(c):
+    """`<something>.decode(<charset variable>)`: the decoding of the request body"""
+    return _call_name(c) == 'decode' and len(c.args) == 1 and not isinstance(c.args[0], ast.Constant)
+
+
+PROTO_SITES = OrderedDict([
+    # proto -> (file, function holding the parser call, module, parser call names)
+    ('xml', ('protocol/xml.py', 'XmlDocument.create_in_document', 'spyne.protocol.xml', ('fromstring',))),
+    ('soap11', ('protocol/soap/soap11.py', '_parse_xml_string', 'spyne.protocol.soap.soap11', ('XMLID',))),
+    ('soap12', ('protocol/soap/soap11.py', '_parse_xml_string', 'spyne.protocol.soap.soap11', ('XMLID',))),
+    ('json', ('protocol/json.py', 'JsonDocument.create_in_document', 'spyne.protocol.json', ('loads',))),
+    ('yaml', ('protocol/yaml.py', 'YamlDocument.create_in_document', 'spyne.protocol.yaml', ('load',))),
+    ('msgpack', ('protocol/msgpack.py', 'MessagePackDocument.create_in_document', 'spyne.protocol.msgpack', ('unpackb',))),
+    ('msgpackrpc', ('protocol/msgpack.py', 'MessagePackRpc.create_in_document', 'spyne.protocol.msgpack', ('unpackb',))),
+    ('http', None),
+])
+
+
+def _subs(c):
+    out = [c]
+    for s in c.__subclasses__():
+        for x in _subs(s):
+            if x not in out:
+                out.append(x)
+    return out
+
+
+def exc_json(cls):
+    return {'name': cls.__name__, 'mro': [c.__name__ for c in cls.__mro__]}
+
+
+def raisable_text_classes(proto, text_input):
+    """what the parser raises in addition when the protocol hands it text"""
+    if proto in XML_PROTOS and text_input:
+        return [ValueError]      # lxml: unicode text with an encoding declaration
+    return []
+
+
+def raisable_classes(proto, text_input):
+    """the classes the parser library raises for input it rejects (introspected hierarchies)"""
+    if proto in XML_PROTOS:
+        from lxml import etree
+        return _subs(etree.XMLSyntaxError)
+    if proto == 'json':
+        return _subs(json.JSONDecodeError) + [ValueError, RecursionError]      # ValueError: the integer digit limit
+    if proto == 'yaml':
+        import yaml
+        from spyne.protocol.yaml import YamlDocument
+        loader = YamlDocument().in_kwargs.get('Loader')
+        pure = not (hasattr(yaml, 'cyaml') and issubclass(loader, yaml.cyaml.CParser))
+        # the pure-Python composer recurses in Python; libyaml recurses on the C stack (see `deep_nesting_probe`)
+        return _subs(yaml.YAMLError) + [ValueError, TypeError, AttributeError] + ([RecursionError] if pure else [])
+    if proto in ('msgpack', 'msgpackrpc'):
+        import msgpack.exceptions as me
+        cl = [getattr(me, n) for n in sorted(dir(me)) if isinstance(getattr(me, n), type)
+              and issubclass(getattr(me, n), ValueError) and 'Pack' not in n.replace('Unpack', '')]
+        out = []
+        for c in cl + [ValueError, UnicodeDecodeError]:
+            if c not in out:
+                out.append(c)
+        return out
+    return []
+
+
+FAULT_CLASSES = ['tooLong', 'notFound', 'notAllowed', 'invalidCreds', 'client', 'server']
+
+
+def status_tables():
+    from spyne.error import (ResourceNotFoundError, InvalidCredentialsError, RequestNotAllowed, RequestTooLongError,
+                             ValidationError)
+    from spyne.model.fault import Fault
+    from spyne.protocol import ProtocolBase
+    from spyne.protocol.soap import Soap11
+    mk = {'tooLong': lambda: RequestTooLongError(), 'notFound': lambda: ResourceNotFoundError('x'),
+          'notAllowed': lambda: RequestNotAllowed('x'), 'invalidCreds': lambda: InvalidCredentialsError('x'),
+          'client': lambda: ValidationError('x'), 'server': lambda: Fault('Server', 'x')}
+    def st(p, k):
+        try:
+            return int(str(p.fault_to_http_response_code(mk[k]())).split(' ')[0])
+        except Exception:
+            return 0            # no status at all: the table is bad, the parts below find the request that shows it
+    pb, s11 = ProtocolBase(), Soap11()
+    return {k: st(pb, k) for k in FAULT_CLASSES}, {k: st(s11, k) for k in FAULT_CLASSES}
+
+
+# ---- the transport decision table
+P_FAMS = ['soap', 'plain', 'http']
+P_METHODS = ['post', 'get', 'other']
+P_CTYPES = ['absent', 'proper', 'garbage', 'multipartNoBoundary', 'otherType']
+P_LENS = ['absent', 'empty', 'exact', 'short', 'long', 'overMax', 'negative', 'nonNumeric', 'float', 'huge', 'padded', 'plus']
+FAM_PROTO = {'soap': 'soap11', 'plain': 'json', 'http': 'http'}
+MAX_LEN = 2 * 1024 * 1024
+
+
+def pre_keys():
+    return [(f, m, c, l) for f in P_FAMS for m in P_METHODS for c in P_CTYPES for l in P_LENS]
+
+
+def len_text(cls, n):
+    return {'absent': None, 'empty': '', 'exact': str(n), 'short': str(max(n - 7, 0)), 'long': str(n + 100),
+            'overMax': str(MAX_LEN + 1), 'negative': '-5', 'nonNumeric': 'abc', 'float': '1.5', 'huge': '9' * 30,
+            'padded': ' %d ' % n, 'plus': '+%d' % n}[cls]
+
+
+def ctype_text(cls, proto):
+    return {'absent': None, 'proper': CONTENT_TYPES[proto] or 'application/x-www-form-urlencoded', 'garbage': '@@@;;;==;charset',
+            'multipartNoBoundary': 'multipart/related', 'otherType': 'text/plain'}[cls]
+
+
+def method_text(cls):
+    return {'post': 'POST', 'get': 'GET', 'other': 'PUT'}[cls]
+
+
+def key_environ(W, key, data=None):
+    """the witness environ of a decision-table row: a valid `echo` request of the family's protocol under
+    the row's request method, CONTENT_TYPE and CONTENT_LENGTH"""
+    fam, m, c, l = key
+    proto = FAM_PROTO[fam]
+    if proto == 'http':
+        body = b'' if data is None else data
+        env = base_environ(proto, body, path='/echo', qs='s=hi&n=5', method=method_text(m))
+    else:
+        body = W.echo_request(proto) if data is None else data
+        env = base_environ(proto, body, method=method_text(m))
+    env.pop('CONTENT_TYPE', None)
+    ct = ctype_text(c, proto)
+    if ct is not None:
+        env['CONTENT_TYPE'] = ct
+    env.pop('CONTENT_LENGTH', None)
+    cl = len_text(l, len(body))
+    if cl is not None:
+        env['CONTENT_LENGTH'] = cl
+    return env, body
+
+
+def effective_body(key, body):
+    """the bytes the protocol gets to see under the row's CONTENT_LENGTH (what `__wsgi_input_to_iterable` delivers)"""
+    l = key[3]
+    if l in ('absent', 'exact', 'long', 'padded', 'plus'):
+        return body
+    if l == 'short':
+        return body[:max(len(body) - 7, 0)]
+    return b''
+
+
+def measure_pre_table(W):
+    """every row replayed on the real WsgiApplication: proceed / reject(code, status) / escape(class)"""
+    rows, detail = [], {}
+    have_wz = werkzeug_available()
+    for key in pre_keys():
+        proto = FAM_PROTO[key[0]]
+        if proto == 'http' and key[1] != 'get' and not have_wz:
+            rows.append(('unavailable',))        # HttpRpc reads POST / PUT bodies with werkzeug's form parser
+            continue
+        s = W.server(proto, None)
+        env, body = key_environ(W, key)
+        r = run_wsgi(W, s, env)
+        if r.kind == 'escape':
+            d = ('escape', r.exc)
+            detail[key] = {'exc': r.exc, 'frame': r.frame}
+        elif r.kind == 'ok':
+            d = ('proceed',)
+        else:
+            # the same environ around bytes the parser rejects: if the answer does not change the transport decided
+            eff = effective_body(key, body)
+            if proto != 'http' and r.calls == 0 and eff != body and r.code and is_client(r.code) and \
+                    r.code.split('.')[-1] in ('XMLSyntaxError', 'JsonDecodeError', 'SoapError', 'ValidationError', 'ResourceNotFound') \
+                    and key[3] in ('empty', 'short', 'negative') and not pre_rejects(W, s, key):
+                d = ('proceed',)
+            else:
+                d = ('reject', r.code or 'None', r.status or 0)
+        rows.append(d)
+    return rows, detail
+
+
+def pre_rejects(W, s, key):
+    """is a row with a cut / empty body answered before the document is looked at?  Compared with the row that
+    differs only in delivering the complete body."""
+    full = (key[0], key[1], key[2], 'exact')
+    env, body = key_environ(W, full)
+    r = run_wsgi(W, s, env)
+    return r.kind != 'ok'
+
+
+def measure_facts(W):
+    f = OrderedDict()
+    witness = {}
+    # (a) except clauses
+    f['genContexts'] = chain_facts('server/_base.py', 'ServerBase.generate_contexts', is_call('create_in_document'),
+                                   'spyne.server._base')
+    f['getInObject'] = chain_facts('server/_base.py', 'ServerBase.get_in_object', is_call('deserialize'), 'spyne.server._base')
+    f['processRequest'] = chain_facts('application.py', 'Application.process_request', is_call('call_wrapper'), 'spyne.application')
+    f['wsgiOutString'] = chain_facts('server/wsgi.py', 'WsgiApplication.handle_rpc', is_call('get_out_string'), 'spyne.server.wsgi')
+    f['parseChain'], f['decodeChain'], f['raisable'], f['textInput'], f['raisableText'] = {}, {}, {}, {}, {}
+    for proto, site in PROTO_SITES.items():
+        if site is None:
+            f['parseChain'][proto], f['decodeChain'][proto], f['raisable'][proto], f['textInput'][proto] = [], [], [], False
+            f['raisableText'][proto] = []
+            continue
+        rel, qn, modname, names = site
+        f['parseChain'][proto] = chain_facts(rel, qn, is_call(*names), modname) or []
+        dc = chain_facts(rel, qn, is_decode_call, modname)
+        f['decodeChain'][proto] = dc or []
+        f['textInput'][proto] = dc is not None
+        f['raisable'][proto] = [exc_json(c) for c in raisable_classes(proto, dc is not None)]
+        f['raisableText'][proto] = [exc_json(c) for c in raisable_text_classes(proto, dc is not None)]
+    # bytes.decode(charset): unknown codec, undecodable bytes, codecs that are not text encodings, idna ...
+    f['raisableDecode'] = [exc_json(UnicodeDecodeError), exc_json(UnicodeError), exc_json(ValueError), exc_json(LookupError)]
+    # (c) status tables
+    f['statusPlain'], f['statusSoap'] = status_tables()
+    s = W.server('json', None)
+    r = run_wsgi(W, s, base_environ('json', W.echo_request('json')))
+    f['okStatus'] = r.status or 0
+    # (d) transport decision table
+    f['preTable'], f['preDetail'] = measure_pre_table(W)
+    return f
+
+
+def _lean_str(s):
+    return '"' + s.replace('\\', '\\\\').replace('"', '\\"') + '"'
+
+
+def _lean_list(items):
+    return '[' + ', '.join(items) + ']'
+
+
+def _lean_handler(h):
+    classes, action = h
+    a = {'keep': '.keep', 'retry': '.retry', 'other': '.other'}.get(action[0]) or '.wrap %s' % _lean_str(action[1])
+    return '⟨%s, %s⟩' % (_lean_list(_lean_str(c) for c in classes), a)
+
+
+def _lean_try(hs):
+    return _lean_list(_lean_handler(h) for h in hs)
+
+
+def _lean_chain(ch):
+    return _lean_list(_lean_try(t) for t in ch)
+
+
+def _lean_exc(e):
+    return '⟨%s, %s⟩' % (_lean_str(e['name']), _lean_list(_lean_str(c) for c in e['mro']))
+
+
+LEAN_PROTO = {'xml': 'xml', 'soap11': 'soap11', 'soap12': 'soap12', 'json': 'json', 'yaml': 'yaml', 'msgpack': 'msgpack',
+              'msgpackrpc': 'msgpackRpc', 'http': 'httpRpc'}
+
+
+def facts_lean(f):
+    def per_proto(d, fmt):
+        return '\n'.join('    | .%s => %s' % (LEAN_PROTO[p], fmt(d[p])) for p in PROTO_SITES)
+
+    def single(ch):
+        # the server functions have one `try` around the stage
+        return _lean_try(ch[0]) if ch else '[]'
+    rows = []
+    for d in f['preTable']:
+        if d[0] == 'proceed':
+            rows.append('.proceed')
+        elif d[0] == 'reject':
+            rows.append('.reject %s %d' % (_lean_str(d[1]), d[2]))
+        elif d[0] == 'unavailable':
+            rows.append('.unavailable')
+        else:
+            rows.append('.escape %s' % _lean_str(d[1]))
+    table = ',\n    '.join(', '.join(rows[i:i + 6]) for i in range(0, len(rows), 6))
+    tab = lambda t: ' | '.join('.%s => %d' % (k, t[k]) for k in FAULT_CLASSES)
+    return '''-- GENERATED by harness/c10.py (T1) from /repo on every run. Do not edit.
+import SpyneModel.Hostile
+namespace SpyneModel.Generated
+open SpyneModel.Hostile
+
+def facts10 : Facts10 where
+  parseChain := fun p => match p with
+%s
+  decodeChain := fun p => match p with
+%s
+  genContexts := %s
+  getInObject := %s
+  processRequest := %s
+  wsgiOutString := %s
+  raisable := fun p => match p with
+%s
+  raisableText := fun p => match p with
+%s
+  raisableDecode := %s
+  decodes := fun p => match p with
+%s
+  statusPlain := fun fc => match fc with
+    | %s
+  statusSoap := fun fc => match fc with
+    | %s
+  okStatus := %d
+  preTable := [
+    %s]
+
+end SpyneModel.Generated
+''' % (per_proto(f['parseChain'], _lean_chain), per_proto(f['decodeChain'], _lean_chain), single(f['genContexts']),
+       single(f['getInObject']), single(f['processRequest']), single(f['wsgiOutString']),
+       per_proto(f['raisable'], lambda l: _lean_list(_lean_exc(e) for e in l)),
+       per_proto(f['raisableText'], lambda l: _lean_list(_lean_exc(e) for e in l)),
+       _lean_list(_lean_exc(e) for e in f['raisableDecode']),
+       per_proto(f['textInput'], lambda b: 'true' if b else 'false'), tab(f['statusPlain']), tab(f['statusSoap']), f['okStatus'], table)
+
+
+# ====================================================================================== stage-level observations (T2)
+def third_party(s, data, charset):
+    """the bytes -> document step as the protocol performs it, outside every handler:
+    {'first': 'doc' | ['decodeExc', cls] | ['parseExc', cls], 'second': the same for the retry}"""
+    proto = s['proto']
+    p = s['app'].in_protocol
+
+    def attempt(f):
+        try:
+            f()
+            return 'doc'
+        except Exception as e:
+            return type(e)
+    res = {'first': 'doc', 'second': 'doc'}
+    if proto in XML_PROTOS:
+        from lxml import etree
+        kw = dict(p.parser_kwargs)
+        if proto == 'xml':
+            r = attempt(lambda: etree.fromstring(data, parser=etree.XMLParser(**kw)))
+            res['first'] = 'doc' if r == 'doc' else ['parseExc', r]
+            return res
+        text = data
+        if charset:
+            try:
+                text = data.decode(charset)
+            except Exception as e:
+                res['first'] = ['decodeExc', type(e)]
+                return res
+        r = attempt(lambda: etree.XMLID(text, etree.XMLParser(**kw)))
+        if r != 'doc':
+            res['first'] = ['parseExc', r]
+            if issubclass(r, ValueError) and not issubclass(r, etree.LxmlError) and charset:
+                # the retry parses the bytes as they came in
+                r2 = attempt(lambda: etree.XMLID(data, etree.XMLParser(**kw)))
+                res['second'] = 'doc' if r2 == 'doc' else ['parseExc', r2]
+        return res
+    if proto == 'http':
+        return res
+    if proto in ('json', 'yaml'):
+        enc = charset if charset is not None else ('UTF-8' if proto == 'yaml' else p.default_string_encoding)
+        text = data
+        if enc is not None:
+            try:
+                text = data.decode(enc)
+            except Exception as e:
+                res['first'] = ['decodeExc', type(e)]
+                return res
+        if proto == 'json':
+            r = attempt(lambda: json.loads(text, **{k: v for k, v in p.kwargs.items() if k != 'cls'}))
+        else:
+            import yaml
+            r = attempt(lambda: yaml.load(text, **p.in_kwargs))
+        res['first'] = 'doc' if r == 'doc' else ['parseExc', r]
+        return res
+    import msgpack
+    if proto == 'msgpack':
+        r = attempt(lambda: msgpack.unpackb(data))
+    else:
+        r = attempt(lambda: msgpack.unpackb(data, **p.kwargs_unpacker))
+    res['first'] = 'doc' if r == 'doc' else ['parseExc', r]
+    return res
+
+
+def stage_outcomes(W, s, data=None, env=None):
+    """the stages after the parser, each driven directly on the input protocol (outside the server's handlers):
+    (dispatch, deser) with values 'ok' | ['fault', code] | ['crash', class] | None (not reached)"""
+    from spyne import MethodContext
+    from spyne.model.fault import Fault
+    app = s['app']
+    p = app.in_protocol
+    calls = list(W.calls)
+
+    def out(e):
+        if isinstance(e, Fault):
+            return ['fault', str(e.faultcode)]
+        return ['crash', type(e)]
+    try:
+        try:
+            if env is not None:
+                from spyne.server.wsgi import WsgiMethodContext
+                w = s['wsgi']
+                ctx = WsgiMethodContext(w, env, app.out_protocol.mime_type)
+                ctx.in_string, charset = w._WsgiApplication__reconstruct_wsgi_request(env)
+                p.create_in_document(ctx, charset)
+            else:
+                ctx = MethodContext(s['base'], MethodContext.SERVER)
+                ctx.in_string = [data]
+                p.create_in_document(ctx, None)
+            p.decompose_incoming_envelope(ctx, p.REQUEST)
+            ctx = p.generate_method_contexts(ctx)[0]
+        except Exception as e:
+            return out(e), None
+        try:
+            p.deserialize(ctx, message=p.REQUEST)
+        except Exception as e:
+            return 'ok', out(e)
+        return 'ok', 'ok'
+    finally:
+        W.calls[:] = calls
+
+
+def _exc_q(cls):
+    return exc_json(cls)
+
+
+def funnel_query(W, s, transport, data=None, env=None, key=None):
+    """T2 query: the stage-level observations of one request"""
+    proto = s['proto']
+    charset = None
+    body = data
+    if transport == 'wsgi':
+        import cgi
+        ct = env.get('CONTENT_TYPE')
+        if ct is not None:
+            charset = cgi.parse_header(ct)[1].get('charset')
+        body = env['c10.body']
+    tp = third_party(s, body, charset)
+
+    def pr(x):
+        return 'doc' if x == 'doc' else {x[0]: _exc_q(x[1])}
+    q = {'op': 'funnel', 'transport': transport, 'proto': LEAN_PROTO[proto], 'parse': pr(tp['first']), 'reparse': pr(tp['second'])}
+    parsed = tp['first'] == 'doc' or (tp['first'][0] == 'parseExc' and tp['second'] == 'doc' and tp['first'][1] is ValueError
+                                        and proto in ('soap11', 'soap12'))
+    disp, deser = ('ok', 'ok')
+    if parsed:
+        if transport == 'wsgi':
+            env2 = dict(env)
+            env2['wsgi.input'] = Input(env['c10.raw'], env.get('c10.mode', 'file'))
+            disp, deser = stage_outcomes(W, s, env=env2)
+        else:
+            disp, deser = stage_outcomes(W, s, data=data)
+
+    def cq(x):
+        if x in ('ok', None):
+            return 'ok'
+        return {'fault': x[1]} if x[0] == 'fault' else {'crash': _exc_q(x[1])}
+    q['dispatch'], q['deser'] = cq(disp), cq(deser)
+    if key is not None:
+        q['key'] = list(key)
+    return q
+
+
+# ====================================================================================== part (a): leaves
+def leaf_cases(ctx, W, N):
+    """(kid, literal index, literal) for every kind: the valid literal first, then the dictionary of its family"""
+    for kid, k in W.K.items():
+        yield kid, 0, None
+        lits = N[k['fam']] + GENERIC
+        seen = set()
+        i = 0
+        for lit in lits:
+            if lit in seen:
+                continue
+            seen.add(lit)
+            i += 1
+            yield kid, i, lit
+
+
+def std_key(proto):
+    fam = {'soap11': 'soap', 'soap12': 'soap', 'http': 'http'}.get(proto, 'plain')
+    return (fam, 'get', 'absent', 'absent') if proto == 'http' else (fam, 'post', 'proper', 'exact')
+
+
+def wsgi_env(proto, data, kid=None):
+    if proto == 'http':
+        env = base_environ(proto, b'', path='/f_' + kid if kid else '/echo', qs=data, method='GET')
+        del env['CONTENT_LENGTH']
+        env['c10.body'] = env['c10.raw'] = b''
+    else:
+        env = base_environ(proto, data)
+        env['c10.body'] = env['c10.raw'] = data
+    return env
+
+
+class T2(object):
+    """collects funnel queries with the outcome class observed end to end"""
+
+    def __init__(self, ctx):
+        self.ctx, self.q, self.impl, self.meta = ctx, [], [], []
+
+    def add(self, q, r, meta):
+        self.q.append(q)
+        self.impl.append(r.cls())
+        self.meta.append(meta)
+
+    def run(self):
+        ans = self.ctx.model(self.q, driver='C10')
+        n = 0
+        for q, impl, mod, meta in zip(self.q, self.impl, ans, self.meta):
+            if 'driver_error' in mod:
+                raise core.Infra('driver error: %r on %r' % (mod, q))
+            if q['transport'] == 'base' and 'resp' in mod:
+                mod = dict(mod, status=None)
+            if mod != impl:
+                n += 1
+                self.ctx.disagree('funnel', dict(meta, query=q), impl, mod)
+        self.ctx.cov['t2_funnel_cases'] = len(self.q)
+        return n
+
+
+def part_leaves(ctx, W, J, t2):
+    """(a) every nasty literal of every leaf kind at the leaf positions of valid requests, every input protocol x
+    validator, through ServerBase and WsgiApplication"""
+    N = nasty_literals()
+    native_cache = {}
+    seed = ctx.seed
+    stride = 2 if ctx.thorough else 4
+    n_req = 0
+    for ci, (proto, validator) in enumerate(all_configs()):
+        s = W.server(proto, validator)
+        fam = family(proto)
+        for kid, i, lit in leaf_cases(ctx, W, N):
+            k = W.K[kid]
+            valid = lit is None
+            if valid:
+                lit = k['valid'] if (proto in XML_PROTOS or proto == 'http') else k['native']
+            positions = [POSITIONS[(i + ci + seed) % 4]]
+            if ctx.thorough:
+                positions.append(POSITIONS[(i + ci + seed + 2) % 4])
+            if valid:
+                positions = ['top']
+            elif proto == 'yaml' and (i + ci + seed) % (2 if ctx.thorough else 3):
+                continue        # PyYAML is slow: every third (thorough: second) literal, rotating with the seed
+            for pos in positions:
+                if proto in XML_PROTOS:
+                    data = W.xml_request(proto, kid, pos, lit)
+                elif proto == 'http':
+                    data = W.http_query(kid, pos, lit)
+                else:
+                    data = W.dict_request(proto, kid, pos, lit)
+                if data is None:
+                    ctx.hit('leaf:uncarriable:' + fam)
+                    continue
+                rp = {'kind': 'leaf', 'kid': kid, 'pos': pos, 'lit': lit}
+                do_wsgi = proto == 'http' or valid or ((i + ci + seed) % stride == 0)
+                if proto != 'http':
+                    r = run_base(W, s, data)
+                    n_req += 1
+                    ctx.case({'leaf': [proto, validator, kid, pos, 'base'], 'lit': hashlib.sha1(repr(lit).encode()).hexdigest()[:12]})
+                    ctx.hit('leaf:%s:%s:%s' % (fam, k['fam'], r.kind if r.kind != 'fault' else ('client' if is_client(r.code) else 'server')))
+                    ctx.hit('leaf-pos:' + pos)
+                    if valid:
+                        J.sanity(s, r, 'base', rp)
+                    else:
+                        J.check(s, r, 'base', rp, leaf=k['fam'], data=data)
+                    if valid or do_wsgi or (r.kind != 'ok' and (i + ci + seed) % 2 == 0):
+                        t2.add(funnel_query(W, s, 'base', data=data), r, dict(rp, proto=proto, validator=validator, transport='base'))
+                if do_wsgi:
+                    env = wsgi_env(proto, data, kid)
+                    r = run_wsgi(W, s, env)
+                    n_req += 1
+                    ctx.case({'leaf': [proto, validator, kid, pos, 'wsgi'], 'lit': hashlib.sha1(repr(lit).encode()).hexdigest()[:12]})
+                    ctx.hit('leaf-wsgi:%s:%s' % (fam, r.status))
+                    env['wsgi.input'] = Input(env['c10.raw'])
+                    if valid:
+                        J.sanity(s, r, 'wsgi', rp)
+                    else:
+                        J.check(s, r, 'wsgi', rp, leaf=k['fam'], env=env)
+                    t2.add(funnel_query(W, s, 'wsgi', env=env, key=std_key(proto)), r,
+                           dict(rp, proto=proto, validator=validator, transport='wsgi'))
+        # values of the wrong kind where the transport can carry them
+        if proto in DICT_PROTOS:
+            pool = native_nasty(proto)
+            for kid, k in W.K.items():
+                for j, v in enumerate(pool):
+                    pos = POSITIONS[(j + ci + seed) % 4]
+                    if not ctx.thorough and (j + ci + seed + len(kid)) % 2:
+                        continue
+                    data = W.dict_request(proto, kid, pos, v)
+                    if data is None:
+                        ctx.hit('leaf:uncarriable:' + fam)
+                        continue
+                    rp = {'kind': 'leaf-native', 'kid': kid, 'pos': pos, 'value': repr(v)[:80], 'request_hex': data.hex()[:4000]}
+                    r = run_base(W, s, data)
+                    n_req += 1
+                    ctx.case({'leaf-native': [proto, validator, kid, pos], 'v': repr(v)[:40]})
+                    ctx.hit('leaf-native:%s:%s:%s' % (fam, k['fam'], r.kind if r.kind != 'fault' else ('client' if is_client(r.code) else 'server')))
+                    J.check(s, r, 'base', rp, leaf=k['fam'] + ':kind', data=data)
+                    if r.kind != 'ok':
+                        t2.add(funnel_query(W, s, 'base', data=data), r, dict(rp, proto=proto, validator=validator, transport='base'))
+    ctx.cov['leaf_requests'] = n_req
+    return n_req
+
+
+# ====================================================================================== part (b): transport
+CHARSETS = ['utf-8', 'bogus', 'ascii', 'utf-16', '', '"utf-8', 'utf-8; charset=x', 'latin-1', 'idna', 'unicode_escape', 'hex', 'undefined',
+            'utf-8\x00', 'UTF-8 ', 'utf_8_sig', 'cp65001']
+QUERY_STRINGS = ['s=%zz&n=5', 's=%', 's=%e9&n=5', 's=%ff%fe', 'n=%35', 's=a&s=b', 'n=5&n=6', '&&&', '=', '=x', 's', 's=&n=', 'n=abc', 'n=1e3',
+                 's=%00', 'n=%00', 's=hi&n=5&zz=1', 's.x=1', 's[0]=a', 's[=a', 's]=a', 'n[0]=5', 'n.0=5', ';', 's=hi;n=5', 's=' + 'a' * 70000,
+                 'n=' + '9' * 5000, 's=%u1234', 's=+&n=+5', 'n= 5', 's=\udcff', 'wsdl', 'WSDL', 'wsdl=1', 'xsd', 's=hi&n=5&' * 300]
+PATHS = ['/echo', '/', '', '/nosuch', '/echo/', '//echo', '/echo/echo', '/ECHO', '/echo%00', '/\x00', '/../echo', '/' + 'a' * 5000, '/é',
+         '/echo.wsdl', '/{urn:c10}echo', '/echo?x', '/f_int_i8']
+
+
+def werkzeug_available():
+    import importlib.util
+    return importlib.util.find_spec('werkzeug') is not None
+
+
+def part_transport(ctx, W, J, t2, facts):
+    """(b) transport-level hostility through WsgiApplication: the whole decision table for every protocol and several
+    bodies, charsets, query strings, paths, misbehaving wsgi.input"""
+    n = 0
+    have_wz = werkzeug_available()
+    table = dict(zip(pre_keys(), facts['preTable']))
+    fam_of = lambda proto: {'soap11': 'soap', 'soap12': 'soap', 'http': 'http'}.get(proto, 'plain')
+    protos = ['xml', 'soap11', 'soap12', 'json', 'yaml', 'msgpack', 'msgpackrpc', 'http']
+    for proto in protos:
+        fam = fam_of(proto)
+        for validator in ((None, 'soft') if ctx.thorough else (None,)):
+            s = W.server(proto, validator)
+            valid = W.echo_request(proto) if proto != 'http' else b''
+            bodies = [('valid', valid)]
+            if proto != 'http':
+                bodies += [('cut', valid[:len(valid) // 2]), ('junk', b'\x00\xff<{[garbage')]
+            for key in pre_keys():
+                if key[0] != fam:
+                    continue
+                if fam == 'http' and key[1] != 'get' and not have_wz:
+                    ctx.hit('transport:skipped:no-werkzeug')
+                    continue
+                for bname, body in bodies:
+                    if bname != 'valid' and not ctx.thorough and (key[2] not in ('proper', 'absent') or key[1] != 'post'):
+                        continue
+                    env, _ = key_environ(W, (key[0], key[1], key[2], key[3]), data=body if proto != 'http' else None)
+                    if proto != FAM_PROTO[fam]:
+                        # same transport class, this protocol's own content type and document
+                        if key[2] == 'proper':
+                            env['CONTENT_TYPE'] = CONTENT_TYPES[proto]
+                    env['c10.raw'] = body
+                    env['c10.body'] = effective_body(key, body)
+                    r = run_wsgi(W, s, env)
+                    n += 1
+                    ctx.case({'transport': [proto, validator, list(key), bname]})
+                    ctx.hit('transport:%s:%s' % (fam, r.kind if r.kind != 'fault' else r.status))
+                    rp = {'kind': 'transport', 'key': list(key), 'body': bname, 'body_hex': body.hex()}
+                    env['wsgi.input'] = Input(body)
+                    J.check(s, r, 'wsgi', rp, leaf='transport', env=env)
+                    t2.add(funnel_query(W, s, 'wsgi', env=env, key=key), r, dict(rp, proto=proto, validator=validator, transport='wsgi'))
+            # charsets
+            if proto != 'http':
+                for cs in CHARSETS:
+                    for bname, body in (('valid', valid), ('non-ascii', W.echo_request(proto, s='h\xe9\u20ac')), ('bytes', b'\xff\xfe\x00<')):
+                        env = base_environ(proto, body)
+                        env['CONTENT_TYPE'] = (CONTENT_TYPES[proto] or 'text/plain').split(';')[0] + '; charset=' + cs
+                        env['c10.raw'] = env['c10.body'] = body
+                        r = run_wsgi(W, s, env)
+                        n += 1
+                        ctx.case({'charset': [proto, validator, cs, bname]})
+                        ctx.hit('charset:%s:%s' % (fam, r.kind if r.kind != 'fault' else r.status))
+                        rp = {'kind': 'charset', 'charset': cs, 'body': bname, 'body_hex': body.hex()}
+                        env['wsgi.input'] = Input(body)
+                        J.check(s, r, 'wsgi', rp, leaf='charset', env=env)
+                        t2.add(funnel_query(W, s, 'wsgi', env=env, key=std_key(proto)), r,
+                               dict(rp, proto=proto, validator=validator, transport='wsgi'))
+            # misbehaving input streams
+            if proto != 'http':
+                for mode in ('short', 'raise', 'raise-late', 'none'):
+                    for bname, body in (('valid', valid), ('long', W.echo_request(proto, s='x' * 20000))):
+                        env = base_environ(proto, body)
+                        env['wsgi.input'] = Input(body, mode)
+                        env['c10.raw'], env['c10.mode'] = body, mode
+                        r = run_wsgi(W, s, env)
+                        n += 1
+                        ctx.case({'input': [proto, validator, mode, bname]})
+                        ctx.hit('input:%s:%s:%s' % (mode, fam, r.kind if r.kind != 'fault' else r.status))
+                        rp = {'kind': 'input', 'mode': mode, 'body': bname, 'body_hex': body.hex()[:2000], 'body_len': len(body)}
+                        env['wsgi.input'] = Input(body, mode)
+                        J.check(s, r, 'wsgi', rp, leaf='input-' + mode, env=env, io_error=mode.startswith('raise'))
+            # query strings and paths (HttpRpc reads them; the others must not care)
+            for qs in QUERY_STRINGS:
+                if proto == 'http':
+                    env = base_environ(proto, b'', path='/echo', qs=qs, method='GET')
+                    del env['CONTENT_LENGTH']
+                else:
+                    env = base_environ(proto, valid, qs=qs)
+                try:
+                    qs.encode('latin-1')
+                except UnicodeEncodeError:
+                    env['QUERY_STRING'] = qs.encode('utf-8', 'surrogateescape').decode('latin-1')
+                if env['QUERY_STRING'].split('=')[0].lower() == 'wsdl' and env['REQUEST_METHOD'] == 'GET':
+                    continue        # the interface document, not an rpc request
+                r = run_wsgi(W, s, env)
+                n += 1
+                ctx.case({'qs': [proto, validator, qs[:40], len(qs)]})
+                ctx.hit('qs:%s:%s' % (fam, r.kind if r.kind != 'fault' else r.status))
+                rp = {'kind': 'qs', 'qs': qs[:300], 'qs_len': len(qs)}
+                env['wsgi.input'] = Input(valid)
+                J.check(s, r, 'wsgi', rp, leaf='query-string', env=env)
+            for path in PATHS:
+                if proto == 'http':
+                    env = base_environ(proto, b'', path=path, qs='s=hi&n=5', method='GET')
+                    del env['CONTENT_LENGTH']
+                else:
+                    env = base_environ(proto, valid, path=path)
+                try:
+                    path.encode('latin-1')
+                except UnicodeEncodeError:
+                    env['PATH_INFO'] = path.encode('utf-8').decode('latin-1')
+                if env['PATH_INFO'].endswith('.wsdl') and env['REQUEST_METHOD'] == 'GET':
+                    continue
+                r = run_wsgi(W, s, env)
+                n += 1
+                ctx.case({'path': [proto, validator, path[:40], len(path)]})
+                ctx.hit('path:%s:%s' % (fam, r.kind if r.kind != 'fault' else r.status))
+                rp = {'kind': 'path', 'path': path[:300], 'path_len': len(path)}
+                env['wsgi.input'] = Input(valid)
+                J.check(s, r, 'wsgi', rp, leaf='path-info', env=env)
+    ctx.cov['transport_requests'] = n
+    return n
+
+
+# ====================================================================================== part (c): bytes
+def deep_docs(proto):
+    n = 3000
+    if proto in XML_PROTOS:
+        return [b'<a>' * n, b'<a>' * n + b'</a>' * n, b'<a ' + b'x="1" ' * 3 + b'>' + b'<b/>' * 10, b'<?xml version="1.0"?>' + b'<!--' * 50,
+                b'<a xmlns:p="u"><p:b/></q:a>', b'<a>&#0;</a>', b'<a>&#xFFFE;</a>', b'<a>\x00</a>', b'<a b="1" b="2"/>', b'<a>' + b'&amp;' * 10000 + b'</a>',
+                b'\xff\xfe<\x00a\x00/\x00>\x00', b'<?xml version="1.0" encoding="bogus"?><a/>', b'<?xml version="1.0" encoding="utf-16"?><a/>',
+                b'<?xml version="9.9"?><a/>', b'<a xmlns="">' + b'x' * 100000 + b'</a>']
+    if proto == 'json':
+        return [b'[' * n, b'{"a":' * n, b'[' * n + b']' * n, b'"' + b'\\u0000' * 10 + b'"', b'1' * 5000, b'-' * 5000, b'1e' + b'9' * 5000,
+                b'{"echo": {"s": "hi", "n": ' + b'9' * 5000 + b'}}', b'\xef\xbb\xbf{"echo": {}}', b'{"echo": {"s": "\\ud800"}}', b'[]', b'""', b'0', b'null',
+                b'true', b'{"echo": null}', b'{"echo": []}', b'{"echo": 5}', b'{"echo": "x"}', b'{"": {}}', b'{"echo": {}, "f": {}}']
+    if proto == 'yaml':
+        return [b'[' * n, b'{a: ' * n, b'- ' * n + b'x', b'a:\n' + b''.join(b' ' * i + b'a:\n' for i in range(1, 400)), b'&a [*a, *a]', b'a: &x [*x]',
+                b'!!python/object/apply:os.system ["true"]', b'!!python/name:os.system', b'? ' * 200, b'%TAG ! tag:x,2000:\n--- !foo x',
+                b'echo: {s: !!binary "###", n: 5}', b'echo: {s: hi, n: !!float .inf}', b'echo: {s: hi, n: .nan}', b'echo: {s: hi, n: 0o17}',
+                b'echo: {s: hi, n: 1_000}', b'echo: {s: hi, n: 0x1F}', b'echo: {s: hi, n: 190:20:30}', b'echo: {s: 2001-12-14t21:59:43.10-05:00, n: 5}',
+                b'echo: {s: !!timestamp "2001-99-99", n: 5}', b'echo: {s: !!set {a, b}, n: 5}', b'echo: {? [a, b] : c}', b'echo: {s: hi, n: !!int "0b1_0"}',
+                b'--- a\n--- b', b'...', b'---', b'\xef\xbb\xbfecho: {}', b'echo:\n\ts: hi', b'echo: {s: "\\ud800", n: 5}', b'echo: ' + b'9' * 5000,
+                b'echo: {s: hi, n: ' + b'9' * 5000 + b'}', b'echo: {<<: {s: hi}, n: 5}', b'echo: {<<: 5}', b'echo: {<<: [1, 2]}']
+    return [b'\x91' * n, b'\x81\xa1a' * n, b'\xdd\xff\xff\xff\xff', b'\xdb\xff\xff\xff\xff', b'\xc6\xff\xff\xff\xff', b'\xdf\xff\xff\xff\xff',
+            b'\xc9\xff\xff\xff\xff\x01', b'\xd4\x00\x00', b'\xd5\x01\x00\x00', b'\xc7\x00\x01', b'\xd7\xff' + b'\xff' * 8, b'\xc7\x0c\xff' + b'\xff' * 12,
+            b'\x81\xa4echo\x82\xa1s\xd9\x02\xff\xfe\xa1n\x05', b'\x81\xc4\x04echo\x82\xc4\x01s\xc4\x02\xff\xfe\xc4\x01n\x05', b'\x81\xa4echo\xc0', b'\x81\xa4echo\x90',
+            b'\x81\xa4echo\x05', b'\x81\xa4echo\xa1x', b'\x82\xa4echo\x80\xa1f\x80', b'\x80', b'\x90', b'\xc0', b'\xc2', b'\xcb' + b'\x7f\xf8' + b'\x00' * 6,
+            b'\x94\x00\x01\xa4echo\x92\xa2hi\x05', b'\x94\x00\x01\xa4echo\x82\xa1s\xa2hi\xa1n\x05\x00', b'\x94\x00\x01\xa4echo\xc0', b'\x94\x00\x01\xa4echo\x05',
+            b'\x94\x00\x01\x05\x80', b'\x94\x00\x01\xc0\x80', b'\x94\x00\x01\x90\x80', b'\x94\xc0\x01\xa4echo\x80', b'\x94\xa1x\x01\xa4echo\x80',
+            b'\x94\xcb\x00\x00\x00\x00\x00\x00\x00\x00\x01\xa4echo\x80', b'\x94\x01\x01\xc0\x05', b'\x94\x03\x01\x81\xa1a\x01\xc0', b'\x93\x00\x01\x81\xa1a\x01',
+            b'\x81\x94\x00\x01\xa4echo\x80\x05', b'\x94\x00\x01\x81\xa1a\x01\x80']
+
+
+def part_bytes(ctx, W, J, t2, facts):
+    """(c) every prefix truncation of valid requests, random bytes, byte flips, parser-level garbage (incl. the
+    codec blocks' corpora) for every input protocol x validator through ServerBase and WsgiApplication"""
+    from . import hierblock
+    rng = ctx.rng
+    raisable = {p: {e['name'] for e in facts['raisable'][p] + facts['raisableText'][p] + facts['raisableDecode']} for p in facts['raisable']}
+    n = 0
+    observed = {}
+    for proto, validator in all_configs():
+        if proto == 'http':
+            continue
+        s = W.server(proto, validator)
+        fam = family(proto)
+        kid = rng.choice(list(W.K))
+        valid_docs = [W.echo_request(proto), W.echo_request(proto, s='h\xe9 <&> \u20ac "q"', n=-12)]
+        lit = W.K[kid]['valid'] if proto in XML_PROTOS else W.K[kid]['native']
+        valid_docs.append(W.xml_request(proto, kid, 'top', lit) if proto in XML_PROTOS else W.dict_request(proto, kid, 'top', lit))
+        cases = []
+        for vd in valid_docs:
+            cuts = range(len(vd)) if (len(vd) <= (400 if ctx.thorough else 90)) else sorted(set(rng.randrange(len(vd)) for _ in range(60)) | {0, 1, len(vd) - 1})
+            cases += [('truncate', vd[:c]) for c in cuts]
+            for _ in range(40 if ctx.thorough else 10):
+                b = bytearray(vd)
+                for _ in range(rng.choice([1, 1, 2, 4])):
+                    b[rng.randrange(len(b))] = rng.randrange(256)
+                cases.append(('flip', bytes(b)))
+                i = rng.randrange(len(vd))
+                cases.append(('insert', vd[:i] + bytes(rng.randrange(256) for _ in range(rng.choice([1, 2, 8]))) + vd[i:]))
+        for _ in range(60 if ctx.thorough else 20):
+            cases.append(('random', bytes(rng.randrange(256) for _ in range(rng.choice([0, 1, 2, 3, 5, 17, 64, 200])))))
+        cases += [('garbage', g) for g in deep_docs(proto)]
+        cases += [('garbage', g) for g in {'json': hierblock.JSON_BAD, 'yaml': hierblock.YAML_BAD, 'msgpack': hierblock.MSGPACK_BAD,
+                                           'msgpackrpc': hierblock.MSGPACK_BAD}.get(proto, [b'', b' ', b'<', b'<a', b'<a/>', b'<a></b>', b'\xef\xbb\xbf<a/>',
+                                                                                   b'<!DOCTYPE a [<!ENTITY e "x">]><a>&e;</a>'])]
+        for j, (tag, data) in enumerate(cases):
+            rp = {'kind': 'bytes', 'mutation': tag, 'request_hex': data[:6000].hex(), 'request_len': len(data)}
+            r = run_base(W, s, data)
+            n += 1
+            ctx.case({'bytes': [proto, validator, tag], 'd': hashlib.sha1(data).hexdigest()[:12]}, nontrivial=tag != 'random' or len(data) > 2)
+            ctx.hit('bytes:%s:%s:%s' % (tag, fam, r.kind if r.kind != 'fault' else ('client' if is_client(r.code) else 'server')))
+            J.check(s, r, 'base', rp, leaf=tag, data=data)
+            q = funnel_query(W, s, 'base', data=data)
+            t2.add(q, r, dict(rp, proto=proto, validator=validator, transport='base'))
+            for part in ('parse', 'reparse'):
+                pr = q[part]
+                if isinstance(pr, dict):
+                    e = list(pr.values())[0]
+                    observed.setdefault(proto, set()).add(e['name'])
+                    if e['name'] not in raisable[proto]:
+                        ctx.hit('parser-class-not-declared:%s:%s' % (proto, e['name']))
+                        # not by itself a failure of the property: the oracle above has judged the answer
+                        ctx.cov.setdefault('parser_classes_outside_raisable', {})['%s:%s' % (proto, e['name'])] = rp['request_hex'][:200]
+            if tag == 'garbage' or j % (1 if ctx.thorough else 3) == 0:
+                env = wsgi_env(proto, data)
+                r = run_wsgi(W, s, env)
+                n += 1
+                ctx.case({'bytes-wsgi': [proto, validator, tag], 'd': hashlib.sha1(data).hexdigest()[:12]})
+                ctx.hit('bytes-wsgi:%s:%s' % (fam, r.kind if r.kind != 'fault' else r.status))
+                env['wsgi.input'] = Input(data)
+                J.check(s, r, 'wsgi', rp, leaf=tag, env=env)
+                t2.add(funnel_query(W, s, 'wsgi', env=env, key=std_key(proto)), r, dict(rp, proto=proto, validator=validator, transport='wsgi'))
+    ctx.cov['parser_exception_classes_observed'] = {k: sorted(v) for k, v in observed.items()}
+    ctx.cov['bytes_requests'] = n
+    return n
+
+
+# ====================================================================================== sandboxed probes
+DEEP_PROBES = [('yaml', 'flow-sequence', "b'[' * n"), ('yaml', 'block-sequence', "b'- ' * n + b'x'"), ('json', 'array', "b'[' * n"),
+               ('xml', 'elements', "b'<a>' * n + b'</a>' * n"), ('soap11', 'elements', "b'<a>' * n + b'</a>' * n"),
+               ('msgpack', 'array', "b'\\x91' * n"), ('msgpackrpc', 'array', "b'\\x91' * n")]
+
+
+def deep_nesting_probe(ctx, n=200000):
+    """documents nested `n` deep (a few hundred kB, inside max_content_length) are sent from a child process, because a
+    parser that recurses on the C stack takes the interpreter down with it"""
+    import subprocess
+    src = ('import sys, logging\nlogging.disable(logging.CRITICAL)\nsys.path.insert(0, %r)\nfrom harness import c10\n'
+           'W = c10.World(c10.leaf_universe())\nn = %d\nfor proto, shape, expr in %r:\n'
+           '    if proto != sys.argv[1]: continue\n    data = eval(expr)\n    s = W.server(proto, None)\n'
+           '    r = c10.run_wsgi(W, s, c10.base_environ(proto, data))\n'
+           '    print("RESULT", proto, shape, r.kind, r.code or r.exc, r.status, flush=True)\n') % (core.VERIF, n, DEEP_PROBES)
+    env = dict(os.environ)
+    env['PYTHONPATH'] = core.REPO + os.pathsep + env.get('PYTHONPATH', '')
+    res = {}
+    protos = sorted({p for p, _, _ in DEEP_PROBES})
+    procs = [(p, subprocess.Popen([sys.executable, '-W', 'ignore', '-c', src, p], stdout=subprocess.PIPE, stderr=subprocess.DEVNULL,
+                                  text=True, env=env, cwd=core.VERIF)) for p in protos]
+    for proto, pr in procs:
+        try:
+            out, _ = pr.communicate(timeout=300)
+        except subprocess.TimeoutExpired:
+            pr.kill()
+            out = ''
+        done = {l.split()[2]: l.split()[3:] for l in out.split('\n') if l.startswith('RESULT')}
+        for p, shape, expr in DEEP_PROBES:
+            if p != proto:
+                continue
+            ctx.case({'deep': [proto, shape, n]})
+            if shape in done:
+                kind, code, status = done[shape]
+                res['%s:%s' % (proto, shape)] = '%s %s %s' % (kind, code, status)
+                ctx.hit('deep:%s:%s' % (proto, kind))
+                if kind != 'fault' or not is_client(code):
+                    ctx.finding('c10:deep-nesting:%s:%s' % (family(proto), kind), 'a %s request nested %d deep is answered with %s %s'
+                                % (proto, n, kind, code), {'kind': 'deep', 'proto': proto, 'shape': shape, 'expr': expr, 'n': n})
+            else:
+                res['%s:%s' % (proto, shape)] = 'process died (exit status %s)' % pr.returncode
+                ctx.hit('deep:%s:process-died' % proto)
+                ctx.finding('c10:process-crash:%s:deep-nesting' % family(proto),
+                            'a %s request of %d nested %s (%d kB, inside max_content_length) kills the server process (exit status %s): '
+                            'the parser recurses on the C stack' % (proto, n, shape, len(eval(expr)) // 1024, pr.returncode),
+                            {'kind': 'deep', 'proto': proto, 'shape': shape, 'expr': expr, 'n': n})
+                break
+    ctx.cov['deep_nesting'] = res
+
+
+# ====================================================================================== run
+def load_known(ctx):
+    """known findings proposed by this check (fixes/C10-known.json) count until they are merged centrally"""
+    p = os.path.join(core.VERIF, 'fixes', 'C10-known.json')
+    if os.path.exists(p):
+        have = {k.get('id') for k in ctx.known_findings}
+        for k in json.load(open(p)):
+            if k.get('property') == ctx.prop and k.get('id') not in have:
+                ctx.known_findings.append(k)
+
+
+def report_fact_findings(ctx, W, f):
+    """T1 facts with a bad value, each with the witness that measured it (replayed on the real code)"""
+    for key, d in zip(pre_keys(), f['preTable']):
+        env, body = key_environ(W, key)
+        rp = {'kind': 'transport', 'key': list(key), 'body': 'valid', 'body_hex': body.hex(), 'proto': FAM_PROTO[key[0]], 'validator': None,
+              'environ': {k: v for k, v in env.items() if isinstance(v, str)}}
+        if d[0] == 'escape':
+            det = f['preDetail'].get(key, {})
+            ctx.hit('fact-bad:pre-escape')
+            ctx.finding('c10:escape:wsgi:%s:%s:%s' % ({'soap': 'soap', 'plain': 'json', 'http': 'http'}[key[0]], d[1], det.get('frame')),
+                        'transport class %s: %s escapes the WSGI callable (innermost spyne frame %s) before generate_contexts is reached'
+                        % ('/'.join(key), d[1], det.get('frame')), rp)
+        elif d[0] == 'reject' and (not is_client(d[1]) or (key[0] != 'soap' and not 400 <= d[2] < 500)):
+            ctx.hit('fact-bad:pre-reject')
+            ctx.finding('c10:transport-answer:%s:%s:%s' % (key[0], d[1], d[2]),
+                        'transport class %s is answered with fault %s / HTTP %s' % ('/'.join(key), d[1], d[2]), rp)
+    for name in ('genContexts', 'getInObject', 'processRequest', 'wsgiOutString'):
+        ch = f[name]
+        hs = ch[0] if ch else []
+        if not any('Exception' in c and a[0] in ('keep', 'wrap') for c, a in hs):
+            ctx.hit('fact-bad:' + name)     # the concrete failing input comes from the parts below
+
+
 def run(ctx):
     from . import c08
     c08.refresh_facts(ctx)      # leaf switches -> Generated/Facts08.lean (Props import Facts08Good)
+    try:
+        from . import c08x
+        protos, kinds, P = c08.impl_env()
+        c08x.write_facts(ctx, protos, P)            # Facts08x.lean (Decimal.max_str_len, as_timezone overflow)
+    except ImportError:
+        pass
     mods = _blocks()
     for m in mods:
         if hasattr(m, 't1'):
             m.t1(ctx)
+    load_known(ctx)
+    W = World(leaf_universe())
+    f = measure_facts(W)
+    ctx.facts10 = f
+    ctx.write_generated('Facts10.lean', facts_lean(f))
+    ctx.cov['facts10'] = {k: f[k] for k in ('genContexts', 'getInObject', 'processRequest', 'wsgiOutString', 'parseChain', 'decodeChain',
+                                            'statusPlain', 'statusSoap', 'okStatus')}
+    ctx.cov['facts10']['raisable'] = {p: [e['name'] for e in l] for p, l in f['raisable'].items()}
+    ctx.cov['facts10']['preTable'] = {'/'.join(k): list(d) for k, d in zip(pre_keys(), f['preTable']) if d[0] != 'proceed'}
+    report_fact_findings(ctx, W, f)
     ctx.prove()
+    # ---- T3 (+ the cases of T2)
+    J = Judge(ctx, W)
+    t2 = T2(ctx)
+    t = ctx.t0
+    import time
+    n1 = part_leaves(ctx, W, J, t2)
+    ctx.log('part (a) leaves: %d requests (%.1fs)' % (n1, time.time() - t))
+    n2 = part_transport(ctx, W, J, t2, f)
+    n3 = part_bytes(ctx, W, J, t2, f)
+    ctx.log('parts (b) transport, (c) bytes: %d + %d requests' % (n2, n3))
+    deep_nesting_probe(ctx)
+    nd = t2.run()
+    ctx.log('T2 funnel: %d cases, %d disagreements' % (len(t2.q), nd))
+    ctx.cov['traces_validated_against_impl'] += len(t2.q)
+    ctx.cov['c10_finding_sites'] = dict(J.sites)
+    # ---- the codec blocks
     for m in mods:
-        f = getattr(m, 'part_c10', None)
-        if f is not None:
-            f(ctx)
+        g = getattr(m, 'part_c10', None)
+        if g is not None:
+            g(ctx)
+    ctx.cov['rule'] = (
+        '(a) leaves: for each of %d leaf kinds (9 integer kinds + customised, Boolean, Unicode + max_len / pattern, Enum, Date, Time, DateTime '
+        '+ as_timezone fixed / utc, timezone=False, ge; Duration, hex / base64 / urlsafe ByteArray, Decimal + gt / digits, Double + ge, Uuid) the '
+        'dictionary of nasty literals of its family (c08 / c08x lists extended: offsets 00:00..99:99 both signs, 24:00:00, month 13, odd / '
+        'non-alphabet hex and base64, digit strings around max_str_len and the int digit limit, exponent forms, NaN / INF, empty, blanks, non-ASCII '
+        'digits, NUL, lone surrogates) at a rotating leaf position (top-level argument, member of a nested object, Array item, repeated member; '
+        'thorough: two of them) of a valid request, for xml / soap11 / soap12 x {None, soft, lxml}, json / yaml / msgpack / msgpackrpc x {None, '
+        'soft}, HttpRpc GET x {None, soft}; through ServerBase and (every 4th literal, thorough: every 2nd, rotating with the seed) WsgiApplication; dict '
+        'documents also carry values of the wrong kind (null, bool, numbers, lists, maps, bytes, dates). (b) transport: the complete table '
+        'request method x CONTENT_TYPE class x CONTENT_LENGTH class for every protocol and valid / cut / junk bodies, 16 charsets x 3 bodies, '
+        'short-reading / raising wsgi.input, %d query strings, %d PATH_INFO values. (c) prefix truncations, byte flips, insertions, random bytes, '
+        'garbage corpora per parser (incl. the codec blocks\'), 200 000-deep documents in child processes. Oracle per case: no escaping '
+        'exception; fault code in the Client family; well-formed fault document of the output protocol; 4xx for non-SOAP; user function '
+        'not run on a fault; valid requests answered normally. distinct = distinct canonical case; then the XML and dict-document blocks\' own '
+        'part_c10 (generated universes: truncations, random bytes, structural mutations).' % (len(W.K), len(QUERY_STRINGS), len(PATHS)))
 
 
+# ====================================================================================== replay
 def replay(ctx, obj):
+    kind = obj.get('kind', '')
+    if kind in ('leaf', 'leaf-native', 'transport', 'charset', 'input', 'qs', 'path', 'bytes', 'deep'):
+        return replay_own(ctx, obj)
     for m in _blocks():
-        if obj.get('kind', '').startswith(getattr(m, 'REPLAY_PREFIX', '\x00')) or hasattr(m, 'replay'):
+        if hasattr(m, 'replay'):
             try:
                 return m.replay(ctx, obj)
             except core.Infra:
@@ -43,3 +1666,81 @@ def replay(ctx, obj):
             except KeyError:
                 continue
     raise core.Infra('no block can replay %r' % obj.get('kind'))
+
+
+def replay_own(ctx, obj):
+    """re-execute one recorded case of this check on the implementation (both transports where they apply)"""
+    print('replay of', obj.get('finding_id'), '-', obj.get('what'))
+    kind = obj['kind']
+    if kind == 'deep':
+        class C(object):
+            cov = {}
+            def case(self, *a, **k): pass
+            def hit(self, *a, **k): pass
+            def finding(self, fid, what, rp): print('T3   : FAIL', fid, '-', what)
+        deep_nesting_probe(C(), obj.get('n', 200000))
+        print(C.cov.get('deep_nesting'))
+        return 1
+    W = World(leaf_universe())
+    proto, validator = obj['proto'], obj.get('validator')
+    s = W.server(proto, validator)
+    runs = []
+    if kind in ('leaf', 'leaf-native'):
+        lit = obj.get('lit')
+        if kind == 'leaf-native':
+            data = bytes.fromhex(obj['request_hex'])
+        elif proto in XML_PROTOS:
+            data = W.xml_request(proto, obj['kid'], obj['pos'], lit)
+        elif proto == 'http':
+            data = W.http_query(obj['kid'], obj['pos'], lit)
+        else:
+            data = W.dict_request(proto, obj['kid'], obj['pos'], lit)
+        print('request :', data[:400])
+        if proto != 'http':
+            runs.append(('base', run_base(W, s, data), dict(data=data)))
+        env = wsgi_env(proto, data, obj['kid'])
+        runs.append(('wsgi', run_wsgi(W, s, env), dict(env=env)))
+    elif kind == 'bytes':
+        data = bytes.fromhex(obj['request_hex'])
+        print('request :', data[:400])
+        runs.append(('base', run_base(W, s, data), dict(data=data)))
+        env = wsgi_env(proto, data)
+        runs.append(('wsgi', run_wsgi(W, s, env), dict(env=env)))
+    else:
+        body = bytes.fromhex(obj.get('body_hex', ''))
+        if kind == 'transport':
+            env, _ = key_environ(W, tuple(obj['key']), data=body if proto != 'http' else None)
+            if proto != FAM_PROTO[obj['key'][0]] and obj['key'][2] == 'proper':
+                env['CONTENT_TYPE'] = CONTENT_TYPES[proto]
+        elif kind == 'charset':
+            env = base_environ(proto, body)
+            env['CONTENT_TYPE'] = (CONTENT_TYPES[proto] or 'text/plain').split(';')[0] + '; charset=' + obj['charset']
+        elif kind == 'input':
+            body = W.echo_request(proto, s='x' * 20000) if obj.get('body') == 'long' else W.echo_request(proto)
+            env = base_environ(proto, body)
+            env['wsgi.input'] = Input(body, obj['mode'])
+        elif kind == 'qs':
+            qs = next((q for q in QUERY_STRINGS if q[:300] == obj['qs'] and len(q) == obj['qs_len']), obj['qs'])
+            env = base_environ(proto, b'', path='/echo', qs=qs, method='GET') if proto == 'http' else base_environ(proto, W.echo_request(proto), qs=qs)
+        else:
+            path = next((q for q in PATHS if q[:300] == obj['path'] and len(q) == obj['path_len']), obj['path'])
+            env = base_environ(proto, b'', path=path, qs='s=hi&n=5', method='GET') if proto == 'http' else base_environ(proto, W.echo_request(proto), path=path)
+        print('environ :', {k: v for k, v in env.items() if isinstance(v, str) and not k.startswith('wsgi.')})
+        runs.append(('wsgi', run_wsgi(W, s, env), dict(env=env)))
+    bad = 0
+
+    class C(object):
+        def hit(self, *a, **k): pass
+        def finding(self, fid, what, rp):
+            print('T3   : FAIL', fid, '-', what)
+    for transport, r, kw in runs:
+        print('%-5s: %s code=%s status=%s exception=%s frame=%s calls=%d' % (transport, r.kind, r.code, r.status, r.exc, r.frame, r.calls))
+        if 'env' in kw and 'wsgi.input' in kw['env'] and isinstance(kw['env']['wsgi.input'], Input):
+            inp = kw['env']['wsgi.input']
+            kw['env']['wsgi.input'] = Input(inp.b.getvalue(), inp.mode)
+        J = Judge(C(), W)
+        if not J.check(s, r, transport, {}, leaf=obj.get('kid') or kind, io_error=str(obj.get('mode', '')).startswith('raise'), **kw):
+            bad += 1
+    if not bad:
+        print('T3   : the property holds on this case')
+    return 1 if bad else 0
